@@ -26,7 +26,9 @@ int main(int argc, char **argv)
     }
     try
     {
-        if (a.prop == "C07")
+        if (a.mode == "threads")
+            runThreadsOpt(c);
+        else if (a.prop == "C07")
             runC07(c);
         else if (a.prop == "C08")
             runC08(c);
